@@ -694,7 +694,9 @@ class CSSStyleSheet(css_parser.stylesheets.StyleSheet):
                             break
                 else:
                     # find first point to insert, but never in front of
-                    # an @charset or @import (e.g. after a leading comment)
+                    # an @charset or @import (e.g. after a leading comment);
+                    # a given index is ignored: at the end if there is none
+                    index = len(self._cssRules)
                     start = 0
                     for i, r in enumerate(self._cssRules):
                         if r.type in (r.CHARSET_RULE, r.IMPORT_RULE):
@@ -760,7 +762,9 @@ class CSSStyleSheet(css_parser.stylesheets.StyleSheet):
                             break
                 else:
                     # find first point to insert, but never in front of
-                    # an @charset, @import or @namespace
+                    # an @charset, @import or @namespace;
+                    # a given index is ignored: at the end if there is none
+                    index = len(self._cssRules)
                     start = 0
                     for i, r in enumerate(self._cssRules):
                         if r.type in (r.CHARSET_RULE, r.IMPORT_RULE,
